@@ -13,7 +13,8 @@ Import ListNotations.
 Inductive ierr :=
 | ELabelsNotFound | ENoDateField | ENoPayeeField | ENoValueField | EExtractor
 | EShortRecord | EFieldMissing | ERender | EDate | EDecimal | ECreditDebitEmpty
-| ENoOperator | ENoRate | ENoSecondaryCommodity | ENoSecondaryAmount | ESameCommodityRate.
+| ENoOperator | ENoRate | ENoSecondaryCommodity | ENoSecondaryAmount | ESameCommodityRate
+| EZeroRate.
 
 Inductive ires (A : Type) := IOk (a : A) | IErr (e : ierr) | IPanic.
 Arguments IOk {A} a. Arguments IErr {A} e. Arguments IPanic {A}.
@@ -200,7 +201,6 @@ Definition fm_decimal (fm : field_map) (key : field_key) (rec : list str) : ires
   match s with None => IOk None | Some s => str_to_comma_decimal s end.
 
 (* str::trim().is_empty() on text whose white space is ASCII *)
-Definition is_ws (c : N) : bool := (c =? 32)%N || ((9 <=? c)%N && (c <=? 13)%N).
 Definition blank (s : str) : bool := forallb is_ws s.
 
 (* ---- the entity the CSV matchers look at, and the matcher itself ---- *)
@@ -240,7 +240,7 @@ Section Import.
 
   Definition set_comment (t : txn) (c : str) : txn :=
     {| t_date := t_date t; t_edate := t_edate t; t_code := t_code t; t_payee := t_payee t;
-       t_comments := t_comments t ++ [c]; t_dest := t_dest t; t_clear := t_clear t;
+       t_comments := t_comments t ++ [one_line c]; t_dest := t_dest t; t_clear := t_clear t;
        t_transferred := t_transferred t; t_amount := t_amount t; t_rates := t_rates t;
        t_balance := t_balance t; t_charges := t_charges t |}.
   Definition set_balance (t : txn) (b : oamount) : txn :=
@@ -252,7 +252,7 @@ Section Import.
     {| t_date := t_date t; t_edate := t_edate t; t_code := t_code t; t_payee := t_payee t;
        t_comments := t_comments t; t_dest := t_dest t; t_clear := t_clear t;
        t_transferred := t_transferred t; t_amount := t_amount t; t_rates := t_rates t;
-       t_balance := t_balance t; t_charges := t_charges t ++ [(payee, a)] |}.
+       t_balance := t_balance t; t_charges := t_charges t ++ [(one_line payee, a)] |}.
   Definition set_transferred (t : txn) (a : oamount) : txn :=
     {| t_date := t_date t; t_edate := t_edate t; t_code := t_code t; t_payee := t_payee t;
        t_comments := t_comments t; t_dest := t_dest t; t_clear := t_clear t;
@@ -270,7 +270,7 @@ Section Import.
                    | PriceOfPrimary => IOk (sc, commodity, dec_mul amount rate)
                    | PriceOfSecondary => match dec_div amount rate with
                                          | Some q => IOk (commodity, sc, q)
-                                         | None => IPanic          (* Decimal `/` by zero *)
+                                         | None => IErr EZeroRate  (* checked_div; was a panic, C16-F16 *)
                                          end
                    end);
         let '(source, target, computed) := kc in
@@ -288,8 +288,15 @@ Section Import.
         end
     end end.
 
-  (* one iteration of `for may_record in rdr.records()`; None = the row is skipped *)
-  Definition import_row (cfg : entry P) (fm : field_map) (r : row) : ires (option txn) :=
+  (* what one record contributes, read in the order the source reads it *)
+  Record row_data := { rd_date : Z; rd_payee : str; rd_amount : dec; rd_balance : option dec;
+                       rd_secondary_amount : option dec; rd_secondary_commodity : option str;
+                       rd_category : option str; rd_commodity : str; rd_rate : option dec;
+                       rd_note : option str; rd_charge : option str }.
+
+  (* the first half of one iteration of `for may_record in rdr.records()`: the field reads
+     (None = the row is skipped for its empty date) *)
+  Definition read_row (cfg : entry P) (fm : field_map) (r : row) : ires (option row_data) :=
     let rec := row_fields r in
     if (length rec <=? fm_max fm)%nat then IErr EShortRecord else
     ido datestr <- fm_extract fm FDate rec;
@@ -304,53 +311,81 @@ Section Import.
     ido secondary_commodity <- fm_extract fm FSecondaryCommodity rec;
     ido category <- fm_extract fm FCategory rec;
     ido commodity0 <- fm_extract fm FCommodity rec;
-    let commodity := match commodity0 with Some c => c | None => cs_primary (e_commodity cfg) end in
     ido rate <- fm_decimal fm FRate rec;
-    let fragment := extract csv_matches (e_rewrite cfg)
-                      {| rc_payee := original_payee; rc_category := category;
-                         rc_secondary_commodity := secondary_commodity |} in
-    let payee := match g_payee fragment with Some p => p | None => original_payee end in
-    let t0 := apply_fragment fragment (txn_new date payee {| oa_value := amount; oa_commodity := commodity |}) in
     ido note <- fm_extract fm FNote rec;
-    let t1 := match note with
-              | Some n => if blank n then t0 else set_comment t0 n
-              | None => t0
-              end in
-    let t2 := match balance with
-              | Some b => set_balance t1 {| oa_value := b; oa_commodity := commodity |}
-              | None => t1
-              end in
     ido charge <- fm_extract fm FCharge rec;
-    ido t3 <- (match charge with
-               | None => IOk t2
-               | Some ch =>
-                   match e_operator cfg with
-                   | None => IErr ENoOperator
-                   | Some op =>
-                       ido v <- str_to_comma_decimal ch;
-                       match v with
-                       | Some v => if dec_is_zero v then IOk t2
-                                   else IOk (add_charge t2 op {| oa_value := v; oa_commodity := commodity |})
-                       | None => IOk t2
-                       end
-                   end
-               end);
+    IOk (Some {| rd_date := date; rd_payee := original_payee; rd_amount := amount; rd_balance := balance;
+                 rd_secondary_amount := secondary_amount; rd_secondary_commodity := secondary_commodity;
+                 rd_category := category;
+                 rd_commodity := match commodity0 with Some c => c | None => cs_primary (e_commodity cfg) end;
+                 rd_rate := rate; rd_note := note; rd_charge := charge |})
+    end end end.
+
+  (* the rules applied to the record *)
+  Definition row_fragment (cfg : entry P) (d : row_data) : frag :=
+    extract csv_matches (e_rewrite cfg)
+            {| rc_payee := rd_payee d; rc_category := rd_category d;
+               rc_secondary_commodity := rd_secondary_commodity d |}.
+
+  (* the conversion in force for the row: the rule's, else the account's default when rate,
+     secondary amount and secondary commodity are all present; none when disabled *)
+  Definition row_conversion (cfg : entry P) (d : row_data) : option conv_spec :=
     let default_conversion :=
-      match rate, secondary_amount, secondary_commodity with
+      match rd_rate d, rd_secondary_amount d, rd_secondary_commodity d with
       | Some _, Some _, Some _ => Some (cs_conversion (e_commodity cfg))
       | _, _, _ => None
       end in
-    let conversion := match option_or (g_conversion fragment) default_conversion with
-                      | Some c => if cv_disabled c then None else Some c
-                      | None => None
-                      end in
-    match conversion with
-    | None => IOk (Some t3)
-    | Some conv =>
-        ido t4 <- apply_conversion conv amount commodity rate secondary_amount secondary_commodity t3;
-        IOk (Some t4)
-    end
-    end end end.
+    match option_or (g_conversion (row_fragment cfg d)) default_conversion with
+    | Some c => if cv_disabled c then None else Some c
+    | None => None
+    end.
+
+  (* Txn::new + code/dest/clear from the fragment + comment + balance *)
+  Definition base_txn (cfg : entry P) (d : row_data) : txn :=
+    let fragment := row_fragment cfg d in
+    let payee := match g_payee fragment with Some p => p | None => rd_payee d end in
+    let t0 := apply_fragment fragment
+                (txn_new (rd_date d) payee {| oa_value := rd_amount d; oa_commodity := rd_commodity d |}) in
+    let t1 := match rd_note d with
+              | Some n => if blank n then t0 else set_comment t0 n
+              | None => t0
+              end in
+    match rd_balance d with
+    | Some b => set_balance t1 {| oa_value := b; oa_commodity := rd_commodity d |}
+    | None => t1
+    end.
+
+  Definition with_charge (cfg : entry P) (d : row_data) (t : txn) : ires txn :=
+    match rd_charge d with
+    | None => IOk t
+    | Some ch =>
+        match e_operator cfg with
+        | None => IErr ENoOperator
+        | Some op =>
+            ido v <- str_to_comma_decimal ch;
+            match v with
+            | Some v => if dec_is_zero v then IOk t
+                        else IOk (add_charge t op {| oa_value := v; oa_commodity := rd_commodity d |})
+            | None => IOk t
+            end
+        end
+    end.
+
+  (* the second half of the iteration *)
+  Definition build_txn (cfg : entry P) (d : row_data) : ires txn :=
+    ido t3 <- with_charge cfg d (base_txn cfg d);
+    match row_conversion cfg d with
+    | None => IOk t3
+    | Some conv => apply_conversion conv (rd_amount d) (rd_commodity d) (rd_rate d)
+                                    (rd_secondary_amount d) (rd_secondary_commodity d) t3
+    end.
+
+  Definition import_row (cfg : entry P) (fm : field_map) (r : row) : ires (option txn) :=
+    ido d <- read_row cfg fm r;
+    match d with
+    | None => IOk None
+    | Some d => ido t <- build_txn cfg d; IOk (Some t)
+    end.
 
   Fixpoint import_rows (cfg : entry P) (fm : field_map) (rows : list row) : ires (list txn) :=
     match rows with
